@@ -122,6 +122,15 @@ func VerifC18Lifecycle() {
 	clients := []*Client{NewClient(), NewClient()}
 	cats := []vCat{{}, {}}
 	names := []string{"tb1", "tb2"}
+	if nd.Choice("start", 2) == 1 {
+		// a richer reachable starting point: tb1 exists with two indexes on one attribute and holds an item
+		nd.Reach("rich-start")
+		nd.Assert(vCreate(clients[0], "tb1", false, true, 0) == nil, "C18-start-create")
+		cats[0]["tb1"] = &vCatTable{indexes: map[string]bool{"gsi": true}}
+		nd.Assert(AddIndex(vCtx, clients[0], "tb1", "late", "g", "") == nil, "C18-start-addindex")
+		cats[0]["tb1"].indexes["late"] = true
+		vPutKey(clients[0], cats[0], "tb1", "a")
+	}
 	for step := 0; step < k; step++ {
 		ci := 0
 		if nd.Choice("client", 4) == 3 { // the second client acts less often: it is the bystander
